@@ -7,7 +7,7 @@ the Kani harnesses K16a/K01c establish for the compiled code (assume-guarantee; 
 import re
 import z3
 
-from .core import Agg, SymEnum, Ref, SeqV, Opaque, UNIT, FnItem, NativeFrame
+from .core import zstr, Agg, SymEnum, Ref, SeqV, Opaque, UNIT, FnItem, NativeFrame
 from .mir import MirUnsupported
 from .contracts import some, NONE
 from . import contracts as C
@@ -126,7 +126,7 @@ def make_table(inp):
     def const_str(v, exe, path):
         v = exe.deref_all(path, v)
         if isinstance(v, z3.ExprRef) and z3.is_string_value(v):
-            return v.as_string()
+            return zstr(v)
         raise MirUnsupported('non-constant string argument %r' % (v,))
 
     @reg(r"ParseState::<'_>::peek_str$")
